@@ -13,7 +13,8 @@ for f in fixed:
     pats = glob.glob(os.path.join(ROOT, "selftest", "reverts", c + "-*.patch"))
     if not pats:
         print("NO-PATCH", c, prop); res.append((c, prop, "no-patch")); continue
-    cp = subprocess.run([os.path.join(ROOT, "tools", "mutant.sh"), pats[0], prop, "--tier", "quick"], capture_output=True, text=True)
+    extra = ["--runs", str(f["revert_runs"])] if f.get("revert_runs") else []
+    cp = subprocess.run([os.path.join(ROOT, "tools", "mutant.sh"), pats[0], prop, "--tier", "quick"] + extra, capture_output=True, text=True)
     hit = f"VIOLATION property={prop}" in cp.stdout
     first = next((l for l in cp.stdout.splitlines() if l.startswith("  clause=")), "")
     print(("caught " if hit else "MISSED ") + prop, c, os.path.basename(pats[0])[9:60], "|", first.strip()[:110], flush=True)
